@@ -17,6 +17,7 @@ EXPLANATION = (
     "negation of (allow || limit <= allowance || window < max_seconds); no partial operation in the closure of "
     "find_events can panic on filter/event contents the engine understands. Exactness and plan-independence of the "
     "answer over all histories are not decided.")
+EXPLANATION += " Also decided: every index range scan of a query is bounded by filter.until() itself and by filter.since() or the raised lower bound."
 ASSUMPTIONS = ["an LMDB range over a key with a reversed-time component yields newest first"]
 
 FIND = "pocket_db::Store::find_events"
